@@ -98,6 +98,11 @@ func c19Statements(r *rt.Rand, p string, n int, mutable bool) []string {
 		"select quantile(float(value), 0.5), count(1) where key ^= '%[1]s'",
 		"select * where key = '%[1]s001' | key = '%[1]s002'",
 		"select * where false & key ^= '%[1]s'",
+		// short form (no select clause)
+		"where key ^= '%[1]s' limit 3",
+		"where key ^= '%[1]s' & value ~= '^g[0-3]$'",
+		"where key between '%[1]s002' and '%[1]s009' limit 1, 2",
+		"where key ^= '%[1]s' & value != 'zz' limit 2, 4",
 	}
 	writes := []string{
 		"put ('%[1]snew1', 'v1'), ('%[1]snew2', upper(key))",
